@@ -56,6 +56,7 @@ fn new_ctx<'a>(idx: &'a Index, module: &[String], self_ty: Option<String>, ret: 
         loop_ctx: vec![],
         sig_params: vec![],
         value_depth: 0,
+        prelude: vec![],
     }
 }
 
